@@ -66,7 +66,12 @@ fn run(ctx: &mut Ctx) -> Verdict {
     let n = ctx.pick(if ctx.tier == Tier::Thorough { 12 } else { 6 });
     let policies: Vec<RunningPolicy> = (0..n).map(|i| gen_policy(ctx, i)).collect();
     let dup_xmlns = ctx.pick(2) == 1;
-    let doc = data_doc(&render_running(&policies, dup_xmlns));
+    let mut doc = data_doc(&render_running(&policies, dup_xmlns));
+    if ctx.chance(1, 4) {
+        // the prefix bound to the jcmd namespace carries no information
+        doc = doc.replace("xmlns:jcmd=", "xmlns:j0=").replace(" jcmd:", " j0:");
+        ctx.count("probe.jcmd_namespace_bound_to_another_prefix");
+    }
     ev!(ctx, "doc {doc}");
     // independent selection
     let mut want: BTreeSet<(String, String)> = BTreeSet::new();
